@@ -34,6 +34,15 @@
     strlen_value
     raw_contract, hash_range                      raw(n, v): size ≥ 0, code 0..255; hash(x, m) ∈ [0, m), m outside 1..2^32−1 refused
     chr_byte_range, charArg_range, put_*_code_range, concat_*_code_range   codes outside 0..255: OUT_OF_RANGE
+  Round C10 (last section of the file; model: Model/Strtod.lean = std::stod in exact arithmetic, second dispatch table
+  `evalBuiltinX` of Model/Builtins.lean):
+    isnum_iff_num, isnum_iff_num_dispatch         isnum(s) = true ⇔ num(s) returns, = false ⇔ STRING_TO_NUM / OUT_OF_RANGE — ALL byte strings
+    isnum_total, num_leading_nul                  isnum never fails; a leading NUL / high byte / control character: not a number
+    num_str_roundtrip_partial                     num(str(d)) = d: special values and kernel-checked instances (general statement not proved)
+    num_str_subnormal_fails                       … and its negation: subnormals, smallest normal, largest double → OUT_OF_RANGE (finding)
+    sign_contract, max_min_contract, mod_eq_operator, clamp_contract, clamp_null, bool_isnull_typeof, constants_value
+    all_builtins_no_hazard                        all 53 modelled built-ins × every argument list: never a C-level hazard
+    strlen_8bit, case_8bit, trim_8bit, hash_8bit  8-bit cleanliness per built-in
 -/
 import BlocV.Proofs.Lemmas.Base64
 import BlocV.Proofs.Lemmas.Digits
@@ -42,6 +51,8 @@ import BlocV.Proofs.Lemmas.Text
 import BlocV.Proofs.Lemmas.Int64
 import BlocV.Model.Members
 import BlocV.Proofs.C03
+import BlocV.Model.Fmt
+import BlocV.Proofs.Lemmas.BuiltinCases
 
 namespace BlocV.C10
 open BlocV BlocV.Lemmas
@@ -292,8 +303,8 @@ theorem text_builtins_no_hazard (fmt : Num.F64 → Bytes) (name : String) (hname
     ∃ r, evalBuiltin (m := Res) fmt name (args.map .ok) = some r ∧ r.isHazard = false := by
   simp only [textBuiltins, List.mem_cons, List.not_mem_nil, or_false] at hname
   rcases hname with rfl | rfl | rfl | rfl | rfl | rfl | rfl | rfl | rfl | rfl | rfl | rfl | rfl | rfl | rfl | rfl | rfl | rfl | rfl | rfl | rfl | rfl | rfl
-  · exact ⟨_, rfl, substrLike_nh _ _ _ _ (fun v s h => .inl (asStr_ok v s h)) asStr_nh args hwf⟩
-  · exact ⟨_, rfl, substrLike_nh _ _ _ _ (fun v s h => .inr (asRaw_ok v s h)) asRaw_nh args hwf⟩
+  · exact ⟨_, rfl, substrLike_nh _ _ _ _ (fun v s h => .inl (asStr_ok v s h)) Lemmas.asStr_nh args hwf⟩
+  · exact ⟨_, rfl, substrLike_nh _ _ _ _ (fun v s h => .inr (asRaw_ok v s h)) Lemmas.asRaw_nh args hwf⟩
   · exact ⟨_, rfl, lrSubstr_nh _ args hwf⟩
   · exact ⟨_, rfl, lrSubstr_nh _ args hwf⟩
   · exact ⟨_, rfl, strpos_nh args hwf⟩
@@ -796,5 +807,423 @@ example : mPut (.str [1, 2, 3]) (.int 1) (.int 255) false = .ok (.str [1, 255, 3
   rw [put_str_code_range _ _ _ _ (by decide)]; rfl
 example : mConcat (.raw [1]) (.int (-1)) false = .err Gen.EXC_RT_OUT_OF_RANGE := by
   rw [concat_raw_code_range]; rfl
+
+/-! ## Round C10: num / isnum, the numeric built-ins, 8-bit cleanliness -/
+
+/-! ### isnum(s) is true exactly when num(s) succeeds -/
+
+/-- **`isnum(s)` ⇔ `num(s)` succeeds, for ALL byte strings** (strings and byte arrays, any 8-bit content,
+any length): both run the same `std::stod` (Model/Strtod.lean); `isnum` answers `true` exactly when
+`num` returns a decimal, and `false` exactly when `num` raises STRING_TO_NUM (nothing converted) or
+OUT_OF_RANGE (overflow, or a tiny inexact result: glibc's ERANGE). Neither is ever a hazard. -/
+theorem isnum_iff_num (s : Bytes) :
+    (biIsnum (m := Res) [.ok (.str s)] = .ok (.bool true) ↔ ∃ d, biNum (m := Res) [.ok (.str s)] = .ok (.num d)) ∧
+    (biIsnum (m := Res) [.ok (.str s)] = .ok (.bool false) ↔
+      (biNum (m := Res) [.ok (.str s)] = .err Gen.EXC_RT_STRING_TO_NUM ∨
+       biNum (m := Res) [.ok (.str s)] = .err Gen.EXC_RT_OUT_OF_RANGE)) ∧
+    (biIsnum (m := Res) [.ok (.raw s)] = .ok (.bool true) ↔ ∃ d, biNum (m := Res) [.ok (.raw s)] = .ok (.num d)) ∧
+    (biIsnum (m := Res) [.ok (.raw s)] = .ok (.bool false) ↔
+      (biNum (m := Res) [.ok (.raw s)] = .err Gen.EXC_RT_STRING_TO_NUM ∨
+       biNum (m := Res) [.ok (.raw s)] = .err Gen.EXC_RT_OUT_OF_RANGE)) := by
+  have e1 : biIsnum (m := Res) [.ok (.str s)] = .ok (.bool (isnumString s)) := rfl
+  have e2 : biNum (m := Res) [.ok (.str s)] = numOfString s >>= fun d => .ok (.num d) := rfl
+  have e3 : biIsnum (m := Res) [.ok (.raw s)] = .ok (.bool (isnumString s)) := rfl
+  have e4 : biNum (m := Res) [.ok (.raw s)] = numOfString s >>= fun d => .ok (.num d) := rfl
+  rw [e1, e2, e3, e4]
+  unfold isnumString numOfString
+  cases Strtod.stod s <;> simp [Gen.EXC_RT_STRING_TO_NUM, Gen.EXC_RT_OUT_OF_RANGE]
+
+/-- through the dispatcher, as a program calls them -/
+theorem isnum_iff_num_dispatch (fmt : Num.F64 → Bytes) (s : Bytes) :
+    evalBuiltin (m := Res) fmt "isnum" [.ok (.str s)] = some (.ok (.bool true)) ↔
+      ∃ d, evalBuiltin (m := Res) fmt "num" [.ok (.str s)] = some (.ok (.num d)) := by
+  have h := (isnum_iff_num s).1
+  constructor
+  · intro h1
+    have : biIsnum (m := Res) [.ok (.str s)] = .ok (.bool true) := Option.some.inj h1
+    obtain ⟨d, hd⟩ := h.1 this
+    exact ⟨d, congrArg some hd⟩
+  · rintro ⟨d, hd⟩
+    exact congrArg some (h.2 ⟨d, Option.some.inj hd⟩)
+
+/-- `num` on a string is `numOfString` (used by the closed examples: `Res F64` has decidable equality). -/
+theorem num_str_eq (s : Bytes) : biNum (m := Res) [.ok (.str s)] = (numOfString s >>= fun d => .ok (.num d)) := rfl
+
+example : isnumString "12abc".toUTF8.toList = true := by decide +kernel
+example : numOfString "  -7.25".toUTF8.toList = .ok 0xc01d000000000000 := by decide +kernel
+example : numOfString "abc".toUTF8.toList = .err Gen.EXC_RT_STRING_TO_NUM := by decide +kernel
+example : numOfString "1e999".toUTF8.toList = .err Gen.EXC_RT_OUT_OF_RANGE := by decide +kernel
+example : numOfString "0x1p-1074".toUTF8.toList = .ok 1 := by decide +kernel
+example : numOfString "0x0.fffffffffffffcp-1022".toUTF8.toList = .ok 0x0010000000000000 := by decide +kernel
+example : numOfString "0x0.fffffffffffff8p-1022".toUTF8.toList = .err Gen.EXC_RT_OUT_OF_RANGE := by decide +kernel
+
+/-- `isnum` never fails and never reaches a hazard, whatever the argument (null, table, object, …):
+the answer is a boolean. -/
+theorem isnum_total (v : Val) (hw : wfVal v = true) : ∃ b, biIsnum (m := Res) [.ok v] = .ok (.bool b) := by
+  cases v with
+  | tab t d e =>
+    have hl : (t.level != 0) = true := hw
+    refine ⟨false, ?_⟩
+    unfold biIsnum
+    simp only [Res.ok_bind, Val.type, Val.isNull, Bool.false_or, hl, ↓reduceIte]
+    rfl
+  | tup decl items =>
+    refine ⟨false, ?_⟩
+    unfold biIsnum
+    simp only [Res.ok_bind, Val.type, Val.isNull, Bool.false_or]
+    unfold makeTupleTy
+    split <;> rfl
+  | _ => exact ⟨_, rfl⟩
+
+/-- A NUL byte ends the number (the C++ hands `c_str()` to `strtod`): a string that STARTS with NUL is
+never a number, whatever follows; and the bytes ≥ 0x80 and the control characters outside 9..13 are
+not white space. -/
+theorem num_leading_nul (b : Bytes) (c : UInt8) (hc : c = 0 ∨ c ≥ 128 ∨ (c < 9) ∨ (13 < c ∧ c < 32)) :
+    biNum (m := Res) [.ok (.str (c :: b))] = .err Gen.EXC_RT_STRING_TO_NUM ∧
+    biIsnum (m := Res) [.ok (.str (c :: b))] = .ok (.bool false) := by
+  have hs : Strtod.stod (c :: b) = .invalid := by
+    have hsp : Strtod.isSpace c = false := by
+      unfold Strtod.isSpace
+      rcases hc with h | h | h | h
+      · subst h; decide
+      · have : c.toNat ≥ 128 := h
+        simp only [Bool.or_eq_false_iff, beq_eq_false_iff_ne, ne_eq, Bool.and_eq_false_iff, decide_eq_false_iff_not]
+        refine ⟨fun h' => by subst h'; simp at this, .inr (fun h' => by have : c.toNat ≤ 13 := h'; omega)⟩
+      · have : c.toNat < 9 := h
+        simp only [Bool.or_eq_false_iff, beq_eq_false_iff_ne, ne_eq, Bool.and_eq_false_iff, decide_eq_false_iff_not]
+        refine ⟨fun h' => by subst h'; simp at this, .inl (fun h' => by have : 9 ≤ c.toNat := h'; omega)⟩
+      · have h1 : 13 < c.toNat := h.1
+        have h2 : c.toNat < 32 := h.2
+        simp only [Bool.or_eq_false_iff, beq_eq_false_iff_ne, ne_eq, Bool.and_eq_false_iff, decide_eq_false_iff_not]
+        refine ⟨fun h' => by subst h'; simp at h2, .inr (fun h' => by have : c.toNat ≤ 13 := h'; omega)⟩
+    have hrange : c.toNat < 32 ∨ c.toNat ≥ 128 := by
+      rcases hc with h | h | h | h
+      · subst h; left; decide
+      · right; exact h
+      · left; have : c.toNat < 9 := h; omega
+      · left; exact h.2
+    have hne : ∀ k : UInt8, 32 ≤ k.toNat → k.toNat < 128 → c ≠ k := by
+      intro k h1 h2 h; subst h; omega
+    have hlow : Strtod.lowerB c = c := by
+      unfold Strtod.lowerB
+      have : ¬ (65 ≤ c.toNat ∧ c.toNat ≤ 90) := by omega
+      simp only [Bool.and_eq_true, decide_eq_true_eq, ite_eq_right_iff]
+      intro h; exact absurd ⟨h.1, h.2⟩ this
+    have hdig : Strtod.isDigit c = false := by
+      unfold Strtod.isDigit
+      simp only [Bool.and_eq_false_iff, decide_eq_false_iff_not]
+      rcases hrange with h | h
+      · left; intro h'; have : 48 ≤ c.toNat := h'; omega
+      · right; intro h'; have : c.toNat ≤ 57 := h'; omega
+    unfold Strtod.stod
+    simp only [List.dropWhile_cons, hsp, Bool.false_eq_true, ↓reduceIte]
+    have h45 := hne 45 (by decide) (by decide)
+    have h43 := hne 43 (by decide) (by decide)
+    have h105 := hne 105 (by decide) (by decide)
+    have h110 := hne 110 (by decide) (by decide)
+    have h48 := hne 48 (by decide) (by decide)
+    have h46 := hne 46 (by decide) (by decide)
+    split
+    · rename_i r heq; cases heq; exact absurd rfl h45
+    · rename_i r heq; cases heq; exact absurd rfl h43
+    · dsimp only
+      · skip
+        have e1 : Strtod.startsCI (c :: b) [105, 110, 102] = false := by
+          unfold Strtod.startsCI
+          simp only [List.length_cons, List.length_nil, List.take_succ_cons, List.map_cons, hlow]
+          cases hb : (List.map Strtod.lowerB (List.take 2 b)) <;> simp [h105]
+        have e2 : Strtod.startsCI (c :: b) [110, 97, 110] = false := by
+          unfold Strtod.startsCI
+          simp only [List.length_cons, List.length_nil, List.take_succ_cons, List.map_cons, hlow]
+          cases hb : (List.map Strtod.lowerB (List.take 2 b)) <;> simp [h110]
+        simp only [e1, e2, Bool.false_eq_true, ↓reduceIte]
+        have e4 : Strtod.mantissa Strtod.isDigit (c :: b) = ([], [], c :: b) := by
+          unfold Strtod.mantissa
+          simp only [List.takeWhile_cons, hdig, Bool.false_eq_true, ↓reduceIte, List.dropWhile_cons]
+          split
+          · rename_i r h; cases h; exact absurd rfl h46
+          · rfl
+        split
+        · rename_i ip fp rest heq
+          split at heq
+          · rename_i x r h; cases h; exact absurd rfl h48
+          · cases heq
+        · rw [e4]; rfl
+  have e1 : biIsnum (m := Res) [.ok (.str (c :: b))] = .ok (.bool (isnumString (c :: b))) := rfl
+  have e2 : biNum (m := Res) [.ok (.str (c :: b))] = numOfString (c :: b) >>= fun d => .ok (.num d) := rfl
+  rw [e1, e2]
+  unfold isnumString numOfString
+  rw [hs]
+  exact ⟨rfl, rfl⟩
+
+example : biNum (m := Res) [.ok (.str [0, 49, 50])] = .err Gen.EXC_RT_STRING_TO_NUM := (num_leading_nul [49, 50] 0 (.inl rfl)).1
+example : numOfString [49, 0, 50] = .ok 0x3ff0000000000000 := by decide +kernel
+
+/-! ### num(str(d)) -/
+
+/-- `num(str(d)) = d` — PARTIAL. Full statement wanted (not proved): for every finite double `d` whose
+`%.16g` text has at most 15 significant digits, or more generally whose shortest round-tripping text has at
+most 16 digits, `numOfString (Fmt.fmt16g d) = .ok d`; and for every normal `d`,
+`numOfString (Fmt.fmt16g d) = .ok d'` with `|d' − d| ≤ 1 ulp`. What is missing: the correct-rounding
+theorems of `Strtod.roundBin` and of `Fmt.fmtPos` (|value − printed| ≤ ½·10^(X−15)) — both functions are
+exact integer arithmetic, so the statement is within reach, but was not done. Proved here: the five
+special values, for which `str` prints `0`, `-0`, `inf`, `-inf`, `nan`, and closed instances checked by the
+kernel on the exact arithmetic of both functions. The full statement with "every double" is FALSE for the
+code: see `num_str_subnormal_fails`. -/
+theorem num_str_roundtrip_partial :
+    numOfString (Fmt.fmt16g 0) = .ok 0 ∧
+    numOfString (Fmt.fmt16g 0x8000000000000000) = .ok 0x8000000000000000 ∧
+    numOfString (Fmt.fmt16g 0x7ff0000000000000) = .ok 0x7ff0000000000000 ∧
+    numOfString (Fmt.fmt16g 0xfff0000000000000) = .ok 0xfff0000000000000 ∧
+    numOfString (Fmt.fmt16g Num.canonNaN) = .ok Num.canonNaN ∧
+    -- 0.1, 1/3 (16 digits printed, comes back), 2^53 + 2, 1e22, 2^1023, the second smallest normal
+    numOfString (Fmt.fmt16g 0x3fb999999999999a) = .ok 0x3fb999999999999a ∧
+    numOfString (Fmt.fmt16g 0x3fd5555555555555) = .ok 0x3fd5555555555555 ∧
+    numOfString (Fmt.fmt16g 0x4340000000000001) = .ok 0x4340000000000001 ∧
+    numOfString (Fmt.fmt16g 0x4480f0cf064dd592) = .ok 0x4480f0cf064dd592 ∧
+    numOfString (Fmt.fmt16g 0x7fe0000000000000) = .ok 0x7fe0000000000000 ∧
+    numOfString (Fmt.fmt16g 0x0010000000000001) = .ok 0x0010000000000001 := by
+  refine ⟨?_, ?_, ?_, ?_, ?_, ?_, ?_, ?_, ?_, ?_, ?_⟩ <;> decide +kernel
+
+/-- 16 digits are not always enough: `0.1 + 0.2` (0x3fd3333333333334) prints as `0.3` and reads back as
+0x3fd3333333333333 — "up to the printed precision" is as far as the property goes. -/
+example : Fmt.fmt16g 0x3fd3333333333334 = "0.3".toUTF8.toList ∧
+    numOfString (Fmt.fmt16g 0x3fd3333333333334) = .ok 0x3fd3333333333333 := by
+  constructor <;> decide +kernel
+
+/-- **Negation of "num(str(d)) returns for every decimal d"** (finding C10.num.subnormal.erange): the text
+of a subnormal double is never exact, glibc's `strtod` reports ERANGE for a tiny inexact result,
+`std::stod` turns that into `std::out_of_range`, and `num` raises OUT_OF_RANGE (and `isnum` answers false)
+on a text that `str` itself produced. Witnesses: the smallest subnormal (`4.940656458412465e-324`) and the
+largest one (`2.225073858507201e-308`). Checked on the real library by the `numstr` stream of the check. -/
+theorem num_str_subnormal_fails :
+    ¬ (∀ d : Num.F64, Num.isNaN d = false → ∃ r, numOfString (Fmt.fmt16g d) = .ok r) := by
+  intro h
+  obtain ⟨r, hr⟩ := h 1 (by decide)
+  have : numOfString (Fmt.fmt16g 1) = .err Gen.EXC_RT_OUT_OF_RANGE := by decide +kernel
+  rw [this] at hr
+  cases hr
+
+example : numOfString (Fmt.fmt16g 0x000fffffffffffff) = .err Gen.EXC_RT_OUT_OF_RANGE := by decide +kernel
+/-- … and so do the two ends of the normal range: the largest double prints as `1.797693134862316e+308`, which is
+above the overflow threshold; the smallest normal prints as `2.225073858507201e-308`, which is below 2^-1022, tiny
+and inexact. -/
+example : numOfString (Fmt.fmt16g 0x7fefffffffffffff) = .err Gen.EXC_RT_OUT_OF_RANGE ∧
+    numOfString (Fmt.fmt16g 0x0010000000000000) = .err Gen.EXC_RT_OUT_OF_RANGE := by
+  constructor <;> decide +kernel
+example : isnumString (Fmt.fmt16g 1) = false := by decide +kernel
+
+/-! ### the numeric built-ins: documented values on integers -/
+
+/-- `sign(i)` ∈ {−1, 0, 1} and is the sign of `i`, every Int64. -/
+theorem sign_contract (i : Int64) :
+    ∃ r, biSign (m := Res) [.ok (.int i)] = .ok (.int r) ∧ r.toInt = Int.sign i.toInt := by
+  have e : biSign (m := Res) [.ok (.int i)] = .ok (.int (if i < 0 then -1 else if i > 0 then 1 else 0)) := rfl
+  refine ⟨_, e, ?_⟩
+  have h0 : (0 : Int64).toInt = 0 := rfl
+  by_cases h1 : i < 0
+  · have : i.toInt < 0 := by simpa [Int64.lt_iff_toInt_lt, h0] using h1
+    simp only [h1, ↓reduceIte]
+    rw [Int.sign_eq_neg_one_of_neg this]; rfl
+  · by_cases h2 : i > 0
+    · have : 0 < i.toInt := by simpa [Int64.lt_iff_toInt_lt, h0] using h2
+      simp only [h1, h2, ↓reduceIte]
+      rw [Int.sign_eq_one_of_pos this]; rfl
+    · have a : ¬ i.toInt < 0 := by simpa [Int64.lt_iff_toInt_lt, h0] using h1
+      have b : ¬ 0 < i.toInt := by simpa [Int64.lt_iff_toInt_lt, h0] using h2
+      have : i.toInt = 0 := by omega
+      simp only [h1, h2, ↓reduceIte, this]; rfl
+
+example : biSign (m := Res) [.ok (.int Int64.minValue)] = .ok (.int (-1)) := rfl
+
+/-- `max` / `min` of two integers: the mathematical maximum / minimum, every pair of Int64. -/
+theorem max_min_contract (x y : Int64) :
+    (∃ r, biMinMax (m := Res) true [.ok (.int x), .ok (.int y)] = .ok (.int r) ∧ r.toInt = max x.toInt y.toInt) ∧
+    (∃ r, biMinMax (m := Res) false [.ok (.int x), .ok (.int y)] = .ok (.int r) ∧ r.toInt = min x.toInt y.toInt) := by
+  have e1 : biMinMax (m := Res) true [.ok (.int x), .ok (.int y)] = .ok (.int (if x < y then y else x)) := rfl
+  have e2 : biMinMax (m := Res) false [.ok (.int x), .ok (.int y)] = .ok (.int (if y < x then y else x)) := rfl
+  refine ⟨⟨_, e1, ?_⟩, ⟨_, e2, ?_⟩⟩
+  · by_cases h : x < y
+    · have : x.toInt < y.toInt := by simpa [Int64.lt_iff_toInt_lt] using h
+      simp only [h, ↓reduceIte]; omega
+    · have : ¬ x.toInt < y.toInt := by simpa [Int64.lt_iff_toInt_lt] using h
+      simp only [h, ↓reduceIte]; omega
+  · by_cases h : y < x
+    · have : y.toInt < x.toInt := by simpa [Int64.lt_iff_toInt_lt] using h
+      simp only [h, ↓reduceIte]; omega
+    · have : ¬ y.toInt < x.toInt := by simpa [Int64.lt_iff_toInt_lt] using h
+      simp only [h, ↓reduceIte]; omega
+
+example : biMinMax (m := Res) true [.ok (.int Int64.minValue), .ok (.int Int64.maxValue)] = .ok (.int Int64.maxValue) := rfl
+
+/-- `mod(x, y)` on integers IS the `%` operator (`Num.imod`: DIVIDE_BY_ZERO for y = 0, 0 for y = −1 — no
+INT64_MIN % −1 trap —, C remainder otherwise), every pair of Int64. -/
+theorem mod_eq_operator (x y : Int64) :
+    biMod (m := Res) [.ok (.int x), .ok (.int y)] = (Num.imod x y >>= fun r => .ok (.int r)) := rfl
+
+example : biMod (m := Res) [.ok (.int Int64.minValue), .ok (.int (-1))] = .ok (.int 0) := rfl
+example : biMod (m := Res) [.ok (.int 7), .ok (.int 0)] = .err Gen.EXC_RT_DIVIDE_BY_ZERO := rfl
+
+/-- `clamp(x, lo, hi)` on integers: `lo` below, `hi` above, `x` between — for `lo ≤ hi` the result lies in
+[lo, hi] and equals x when x does; every triple of Int64 (for lo > hi the C++ order of the tests decides:
+x < lo gives lo). -/
+theorem clamp_contract (x lo hi : Int64) :
+    ∃ r, biClamp (m := Res) [.ok (.int x), .ok (.int lo), .ok (.int hi)] = .ok (.int r) ∧
+      r.toInt = (if x.toInt < lo.toInt then lo.toInt else if hi.toInt < x.toInt then hi.toInt else x.toInt) ∧
+      (lo.toInt ≤ hi.toInt → lo.toInt ≤ r.toInt ∧ r.toInt ≤ hi.toInt) := by
+  have e : biClamp (m := Res) [.ok (.int x), .ok (.int lo), .ok (.int hi)] =
+      .ok (.int (if x < lo then lo else if x > hi then hi else x)) := rfl
+  refine ⟨_, e, ?_⟩
+  by_cases h1 : x < lo
+  · have a : x.toInt < lo.toInt := by simpa [Int64.lt_iff_toInt_lt] using h1
+    rw [if_pos h1, if_pos a]
+    exact ⟨rfl, fun h => ⟨Int.le_refl _, h⟩⟩
+  · have a : ¬ x.toInt < lo.toInt := by simpa [Int64.lt_iff_toInt_lt] using h1
+    rw [if_neg h1, if_neg a]
+    by_cases h2 : x > hi
+    · have b : hi.toInt < x.toInt := by simpa [Int64.lt_iff_toInt_lt] using h2
+      rw [if_pos h2, if_pos b]
+      exact ⟨rfl, fun h => ⟨h, Int.le_refl _⟩⟩
+    · have b : ¬ hi.toInt < x.toInt := by simpa [Int64.lt_iff_toInt_lt] using h2
+      rw [if_neg h2, if_neg b]
+      exact ⟨rfl, fun _ => ⟨by omega, by omega⟩⟩
+
+example : biClamp (m := Res) [.ok (.int 9), .ok (.int 0), .ok (.int 5)] = .ok (.int 5) := rfl
+
+/-- A null among the three arguments of `clamp` returns the first argument AS IT IS (also when it is a
+non-null number). -/
+theorem clamp_null (x : Int64) (t : Ty) (v : Val) :
+    biClamp (m := Res) [.ok (.int x), .ok (.null t), .ok v] = .ok (.int x) ∧
+    biClamp (m := Res) [.ok (.int x), .ok (.int 0), .ok (.null t)] = .ok (.int x) := ⟨rfl, rfl⟩
+
+/-- `bool`, `isnull`, `typeof` on scalars. `bool(i)` is `i ≠ 0`; `isnull` is the null test for EVERY value;
+`typeof` never fails and names the major type, `TABLE` for every table. -/
+theorem bool_isnull_typeof (v : Val) (i : Int64) :
+    biBool (m := Res) [.ok (.int i)] = .ok (.bool (i != 0)) ∧
+    biIsnull (m := Res) [.ok v] = .ok (.bool v.isNull) ∧
+    biTypeof (m := Res) [.ok v] =
+      .ok (.str (if v.type.level > 0 then "TABLE".toUTF8.toList else (majorName v.type.major).toUTF8.toList)) := by
+  refine ⟨rfl, rfl, ?_⟩
+  unfold biTypeof
+  simp only [Res.ok_bind]
+  split <;> rfl
+
+example : biTypeof (m := Res) [.ok (.null Ty.none)] = .ok (.str "undefined".toUTF8.toList) := by rfl
+example : biTypeof (m := Res) [.ok (.raw [0, 255])] = .ok (.str "bytes".toUTF8.toList) := by rfl
+
+/-- The constants. -/
+theorem constants_value (fmt : Num.F64 → Bytes) :
+    evalBuiltin (m := Res) fmt "pi" [] = some (.ok (.num 0x400921fb54442d18)) ∧
+    evalBuiltin (m := Res) fmt "ee" [] = some (.ok (.num 0x4005bf0a8b145769)) ∧
+    evalBuiltin (m := Res) fmt "phi" [] = some (.ok (.num 0x3ff9e3779b97f4a8)) := ⟨rfl, rfl, rfl⟩
+
+/-! ### totality of everything modelled -/
+
+/-- The built-ins of the second dispatch table. -/
+def moreBuiltins : List String :=
+  ["num", "isnum", "bool", "isnull", "typeof", "sign", "floor", "ceil", "sqrt", "exp", "log", "log10", "sin", "cos",
+   "tan", "asin", "acos", "atan", "sinh", "cosh", "tanh", "round", "max", "min", "mod", "atan2", "clamp", "pi", "ee", "phi"]
+
+/-- **Totality without undefined behaviour, all 53 modelled built-ins** (`textBuiltins ++ moreBuiltins`):
+for EVERY argument list (any arity, any types, nulls, typed nulls, tables, every Int64, every decimal bit
+pattern, every byte list) of well-formed values the built-in is dispatched and its outcome is a value, a BLOC
+error or "unmodelled" (a non-null imaginary operand), never a C-level hazard. For max / min / mod / atan2
+this contains the fact that the typed accessors behind the combined null test of their prologue are reached
+only for two non-null numbers (`numPair_no_hazard`), for `round(x, n)` that a decimal digit count goes
+through the range-checked conversion. -/
+theorem all_builtins_no_hazard (fmt : Num.F64 → Bytes) (name : String) (hname : name ∈ textBuiltins ++ moreBuiltins)
+    (args : List Val) (hwf : ∀ v ∈ args, wfVal v = true) :
+    ∃ r, evalBuiltin (m := Res) fmt name (args.map .ok) = some r ∧ r.isHazard = false := by
+  rw [List.mem_append] at hname
+  rcases hname with h | h
+  · exact text_builtins_no_hazard fmt name h args hwf
+  · have hok : ArgsOk (args.map .ok) := by
+      intro t ht
+      obtain ⟨v, hv, rfl⟩ := List.mem_map.1 ht
+      refine ⟨rfl, fun w hw => ?_⟩
+      cases hw
+      have := hwf v hv
+      cases v with
+      | tab t d e =>
+        have h' : t.level ≠ 0 := by simpa [wfVal] using this
+        simp only [Val.tabOk, decide_eq_true_eq]; omega
+      | _ => rfl
+    have hsome : ∃ r, evalBuiltin (m := Res) fmt name (args.map .ok) = some r := by
+      simp only [moreBuiltins, List.mem_cons, List.not_mem_nil, or_false] at h
+      rcases h with rfl | rfl | rfl | rfl | rfl | rfl | rfl | rfl | rfl | rfl | rfl | rfl | rfl | rfl | rfl | rfl | rfl | rfl
+        | rfl | rfl | rfl | rfl | rfl | rfl | rfl | rfl | rfl | rfl | rfl | rfl <;> exact ⟨_, rfl⟩
+    obtain ⟨r, hr⟩ := hsome
+    exact ⟨r, hr, evalBuiltin_no_hazard_of fmt name _ r hok (by
+      simp only [moreBuiltins, List.mem_cons, List.not_mem_nil, or_false] at h
+      rintro (rfl | rfl) <;> simp at h) hr⟩
+
+example (fmt : Num.F64 → Bytes) : ∃ r, evalBuiltin (m := Res) fmt "max"
+    ([.null Ty.int, .str [97]].map .ok) = some r ∧ r.isHazard = false :=
+  all_builtins_no_hazard fmt _ (by decide) _ (by decide)
+example (fmt : Num.F64 → Bytes) : ∃ r, evalBuiltin (m := Res) fmt "round"
+    ([.num 0x4004000000000000, .num 0x7ff8000000000000].map .ok) = some r ∧ r.isHazard = false :=
+  all_builtins_no_hazard fmt _ (by decide) _ (by decide)
+example (fmt : Num.F64 → Bytes) : ∃ r, evalBuiltin (m := Res) fmt "num"
+    ([.str [0, 255, 49]].map .ok) = some r ∧ r.isHazard = false :=
+  all_builtins_no_hazard fmt _ (by decide) _ (by decide)
+
+/-! ### 8-bit cleanliness, per built-in -/
+
+/-- `strlen` counts every byte: a NUL or a high byte inside the string is one character like any other. -/
+theorem strlen_8bit (a b : Bytes) (c : UInt8) (hlen : (a ++ c :: b).length < 2 ^ 63) :
+    ∃ n, biStrlen (m := Res) [.ok (.str (a ++ c :: b))] = .ok (.int n) ∧ n.toInt = a.length + 1 + b.length := by
+  obtain ⟨n, h1, h2⟩ := strlen_value _ hlen
+  refine ⟨n, h1, ?_⟩
+  rw [h2]; simp [List.length_append]; omega
+
+/-- `upper` / `lower` work byte by byte: they commute with concatenation, and every byte that is not an
+ASCII letter of the other case — NUL, control characters, 0x80..0xFF — is copied unchanged. -/
+theorem case_8bit (a b : Bytes) (c : UInt8) (hc : c < 65 ∨ c > 122) :
+    (a ++ c :: b).map upperByte = a.map upperByte ++ c :: b.map upperByte ∧
+    (a ++ c :: b).map lowerByte = a.map lowerByte ++ c :: b.map lowerByte := by
+  have hu : upperByte c = c := by
+    unfold upperByte
+    have : ¬ (97 ≤ c.toNat ∧ c.toNat ≤ 122) := by
+      rcases hc with h | h
+      · have : c.toNat < 65 := h; omega
+      · have : 122 < c.toNat := h; omega
+    simp only [ite_eq_right_iff]
+    intro h; exact absurd ⟨h.1, h.2⟩ this
+  have hl : lowerByte c = c := by
+    unfold lowerByte
+    have : ¬ (65 ≤ c.toNat ∧ c.toNat ≤ 90) := by
+      rcases hc with h | h
+      · have : c.toNat < 65 := h; omega
+      · have : 122 < c.toNat := h; omega
+    simp only [ite_eq_right_iff]
+    intro h; exact absurd ⟨h.1, h.2⟩ this
+  simp [List.map_append, hu, hl]
+
+example (fmt : Num.F64 → Bytes) : evalBuiltin (m := Res) fmt "upper" [.ok (.str [97, 0, 233, 98])] = some (.ok (.str [65, 0, 233, 66])) := by rfl
+
+/-- `trim` / `ltrim` / `rtrim` remove the byte 0x20 only: a string whose first and last bytes are not
+spaces (NUL, TAB, 0xA0, … are not) comes back unchanged. -/
+theorem trim_8bit (c d : UInt8) (m : Bytes) (hc : c ≠ 32) (hd : d ≠ 32) :
+    dropWhileSp (c :: m ++ [d]) = c :: m ++ [d] ∧ rtrimSp (c :: m ++ [d]) = c :: m ++ [d] ∧
+    dropWhileSp (rtrimSp (c :: m ++ [d])) = c :: m ++ [d] := by
+  have h1 : dropWhileSp (c :: m ++ [d]) = c :: m ++ [d] := by
+    unfold dropWhileSp; simp [hc]
+  have h2 : rtrimSp (c :: m ++ [d]) = c :: m ++ [d] := by
+    unfold rtrimSp
+    have : (c :: m ++ [d]).reverse = d :: (c :: m).reverse := by simp
+    rw [this, List.dropWhile_cons]
+    simp [hd]
+  exact ⟨h1, h2, by rw [h2, h1]⟩
+
+example (fmt : Num.F64 → Bytes) : evalBuiltin (m := Res) fmt "trim" [.ok (.str [32, 9, 97, 0, 32])] = some (.ok (.str [9, 97, 0])) := by rfl
+
+/-- `hash` folds over every byte (a NUL does not end the string): the hash of `a ++ b` is the fold continued
+over `b` from the hash of `a`. -/
+theorem hash_8bit (a b : Bytes) :
+    djb32 (a ++ b) = b.foldl (fun (h : UInt32) (c : UInt8) => ((h <<< 5) + h) + (if c < 128 then c.toUInt32 else c.toUInt32 + 0xffffff00)) (djb32 a) := by
+  unfold djb32; rw [List.foldl_append]
+
+example : djb32 [97, 0, 98] ≠ djb32 [97] := by decide
+
 
 end BlocV.C10
